@@ -45,7 +45,41 @@ var (
 		"\t$$", " a##b", " a#@#b", " a#?#b", "x##y", " $$ ## $@$", " 100$$ or 200$@$", "#$$", "#$@$", "@#$$", " see example.org##.banner"}
 )
 
+// c18DeepName (N2): a valid name with MANY labels: 5, 6, 7, 9, 17, 33, 41, 65 … up to 120 (short labels, at most 253
+// bytes in all), or few LONG labels (up to 63 bytes each); the last label is an alphabetic TLD.
+func c18DeepName(r *rng) string {
+	k := n2Count(r, 3, func() int { return 5 + r.n(4) }, 5, 120)
+	labels := []string{"a", "b", "w", "x1", "0", "cdn", "www", "ad-s", "m", "s3", "eu", "xn--80ak6aa92e", "A", "z9"}
+	tail := pick(r, []string{"example.org", "test.co.uk", "e.org", "site.com", "city.kawasaki.jp", "example.museum"})
+	var parts []string
+	n := len(tail)
+	for i := strings.Count(tail, ".") + 1; i < k; i++ {
+		l := pick(r, labels)
+		if k > 40 {
+			l = l[:1]
+		}
+		if r.chance(1, 12) && k < 12 {
+			l = strings.Repeat(pick(r, []string{"q", "ab", "x-y"}), 63)[:1+r.n(63)]
+			l = strings.TrimRight(l, "-") + "e"
+			if len(l) > 63 {
+				l = l[:63]
+			}
+		}
+		if n+len(l)+1 > 253 {
+			break
+		}
+		parts = append(parts, l)
+		n += len(l) + 1
+	}
+	parts = append(parts, tail)
+
+	return strings.Join(parts, ".")
+}
+
 func c18Name(r *rng) string {
+	if r.chance(1, 10) {
+		return c18DeepName(r)
+	}
 	if r.chance(1, 5) {
 		return pick(r, c18OddNames)
 	}
@@ -77,6 +111,10 @@ func c18Line(r *rng) (line string, names []string) {
 		k := 1 + r.n(8)
 		if r.chance(1, 2) {
 			k = 1 + r.n(2)
+		}
+		if r.chance(1, 20) {
+			// N2: MANY names on one line (9, 17, 33, 41, 65, 101, 256 … up to 300)
+			k = n2Count(r, 1, nil, 9, 300)
 		}
 		for i := 0; i < k; i++ {
 			n := c18Name(r)
@@ -229,7 +267,7 @@ func genC18(r *rng, n int, w *bufio.Writer) {
 			// like a hosts line of its own: it must stay a comment
 			tail := fmt.Sprintf("remark%d.example", r.n(100))
 			head := pick(r, []string{"0.0.0.0 ", "::1 ", "10.0.0.1\t"}) + strings.Join(names, " ")
-			if len(names) == 0 || strings.ContainsAny(head, "#\n\r") {
+			if len(names) == 0 || strings.ContainsAny(head, "#\n\r") || len(head) > 3000 {
 				head, names = "0.0.0.0 listed.example", []string{"listed.example"}
 			}
 			head += " # "
